@@ -31,7 +31,7 @@ HOSTS = {"name": ("srv.sim.test", "10.3.0.1", _rs.AF_INET), "ipv4": ("10.3.0.2",
          "ipv6": ("[2001:db8::7]", "2001:db8::7", _rs.AF_INET6), "upper": ("SRV.Sim.Test", "10.3.0.1", _rs.AF_INET),
          "redir": ("redir.sim.test", "10.3.0.9", _rs.AF_INET)}
 PORTS = (None, 80, 443, 8080, 1, 65535)
-PATHS = ("", "/", "/chat", "/a/b/c", "/p%20q", "/x.y-z_~")
+PATHS = ("", "/", "/chat", "/a/b/c", "/p%20q", "/x.y-z_~", "/socket.io;transport=websocket", "/app/feed;id=7;mode=rw", "/a;v=1/b", "/p;")
 QUERIES = (None, "", "a=1", "a=1&b=%20", "q")
 
 
@@ -129,7 +129,7 @@ def run(sc, choices=None):
         path, query = sc.get("path", ""), sc.get("query")
         if path and not path.startswith("/"):
             raise InvalidScenario("path")
-        if any(c in (path + (query or "")) for c in " \r\n#;?"):
+        if any(c in (path + (query or "")) for c in " \r\n#?") or ";" in (query or ""):
             raise InvalidScenario("path chars")
         import copy
         opts = copy.deepcopy(dict(sc.get("opts", {})))  # the caller's own objects: the SAME ones are handed to every connection
